@@ -537,6 +537,37 @@ def map_models(I, st, caller, func, args, argtys, dest_ty):
         x = deref_all(I, st, args[1])
         if z3.is_expr(x):
             return ret(st, z3.Or([deref_all(I, st, e) == x for e in seq.fields]) if seq.fields else z3.BoolVal(False))
+    m = re.match(r"^core::slice::<impl \[(u64|usize|u32|u8)\]>::binary_search$", f.replace("std::slice::<impl", "core::slice::<impl"))
+    if m:
+        # the algorithm of core::slice::binary_search_by (rustc 1.9x): on an unsorted slice the result is unspecified by
+        # the documentation but deterministic; it is reproduced step by step, forking on every comparison
+        seq, _ = seq_of(I, st, args[0])
+        x = deref_all(I, st, args[1])
+        els = [deref_all(I, st, e) for e in seq.fields]
+        n = len(els)
+        if n == 0:
+            return ret(st, EnumV("Result", 1, {1: (z3.IntVal(0),)}))
+        outs = []
+        work = [(st.fork(), n, 0)]
+        while work:
+            s, size, base = work.pop()
+            if size > 1:
+                half = size // 2
+                mid = base + half
+                for cond, nb in ((els[mid] > x, base), (els[mid] <= x, mid)):
+                    if I.feasible(s, cond):
+                        s2 = s.fork()
+                        s2.assume(cond)
+                        work.append((s2, size - half, nb))
+                continue
+            for cond, res in ((els[base] == x, EnumV("Result", 0, {0: (z3.IntVal(base),)})),
+                              (els[base] < x, EnumV("Result", 1, {1: (z3.IntVal(base + 1),)})),
+                              (els[base] > x, EnumV("Result", 1, {1: (z3.IntVal(base),)}))):
+                if I.feasible(s, cond):
+                    s2 = s.fork()
+                    s2.assume(cond)
+                    outs.append(Outcome("return", res, s2))
+        return outs
     m = re.match(r"^<(usize|u64|u32) as TryInto<(usize|u64|u128)>>::try_into$", f)
     if m:
         return ret(st, EnumV("Result", 0, {0: (args[0],)}))
